@@ -491,6 +491,77 @@ def corpus_layout(package="layout", byte_order=None):
 _corpus_cache = None
 
 
+def corpus_attrs(package="attrs", byte_order=None):
+    """Attribute matrix for the traits check: every entity kind (public type, enum + values, set + choices, composite
+    + inline elements + refs, message, field, group, data) in four attribute variants {none, sinceVersion, sinceVersion
+    + deprecated, description + semanticType}, refs and fields x targets that are / are not versioned themselves."""
+    nid = _ids()
+    V = [dict(), dict(since=3), dict(since=1, deprecated=2), dict(description="some text", semantic_type="Sem")]
+
+    def ap(node, k):
+        for a, v in V[k].items():
+            setattr(node, a, v)
+        return node
+
+    types = [std_header(), std_dimension(), std_vardata()]
+    tnames, enames, snames, cnames = [], [], [], []
+    for k in range(4):
+        types.append(ap(Type("T%d" % k, ["uint16", "int32", "char", "double"][k], presence=[None, "optional", None, None][k]), k))
+        tnames.append("T%d" % k)
+        types.append(ap(Type("Arr%d" % k, "char", length=3 + k, char_encoding=[None, "ASCII", None, "UTF-8"][k]), k))
+        e = ap(Enum("E%d" % k, ["uint8", "char", "uint16", "int8"][k], []), k)
+        for j in range(4):
+            e.values.append(ap(EnumValue("v%d" % j, chr(65 + j) if e.encoding == "char" else str(j)), (j + k) % 4))
+        types.append(e)
+        enames.append(e.name)
+        s = ap(SetT("S%d" % k, UNSIGNED[k], []), k)
+        for j in range(4):
+            s.choices.append(ap(Choice("c%d" % j, j * 2), (j + k) % 4))
+        types.append(s)
+        snames.append(s.name)
+        c = ap(Composite("Inner%d" % k, [ap(Type("a", "uint8"), k), ap(Type("b", "int16", presence="optional"), (k + 1) % 4)]), k)
+        types.append(c)
+        cnames.append(c.name)
+    # composite with inline elements of every kind in every variant and refs to (un)versioned targets of every kind
+    elems = []
+    for k in range(4):
+        elems.append(ap(Type("it%d" % k, "uint32"), k))
+        ie = ap(Enum("ie%d" % k, "uint8", [ap(EnumValue("x", "1"), k), EnumValue("y", "2")]), k)
+        elems.append(ie)
+        isx = ap(SetT("is%d" % k, "uint8", [ap(Choice("p", 0), k), Choice("q", 7)]), k)
+        elems.append(isx)
+        elems.append(ap(Composite("ic%d" % k, [ap(Type("m", "int8"), k), Type("n", "uint8")]), k))
+        for tgt_k in (0, 1):                       # target without / with sinceVersion
+            elems.append(ap(Ref("rt%d_%d" % (k, tgt_k), "T%d" % tgt_k), k))
+            elems.append(ap(Ref("re%d_%d" % (k, tgt_k), "E%d" % tgt_k), k))
+            elems.append(ap(Ref("rs%d_%d" % (k, tgt_k), "S%d" % tgt_k), k))
+            elems.append(ap(Ref("rc%d_%d" % (k, tgt_k), "Inner%d" % tgt_k), k))
+    types.append(Composite("Outer", elems, description="outer"))
+    msgs = []
+    for k in range(4):
+        fields = []
+        for j in range(4):
+            fields.append(ap(Field("fp%d" % j, nid(), ["uint8", "int64", "float", "char"][j]), (j + k) % 4))
+            fields.append(ap(Field("ft%d" % j, nid(), "T%d" % j), (j + k + 1) % 4))
+            fields.append(ap(Field("fe%d" % j, nid(), "E%d" % j), (j + k + 2) % 4))
+            fields.append(ap(Field("fs%d" % j, nid(), "S%d" % j), (j + k + 3) % 4))
+            fields.append(ap(Field("fc%d" % j, nid(), "Inner%d" % j), (j + k) % 4))
+        if k == 0:
+            fields.append(Field("outer", nid(), "Outer"))
+        groups = []
+        for j in range(4):
+            inner = ap(Group("in%d" % j, nid(), [ap(Field("z", nid(), "T%d" % j), (j + 1) % 4)], [], [ap(Data("dz", nid(), "varDataEncoding"), j)]), (j + 2) % 4)
+            groups.append(ap(Group("g%d" % j, nid(), [ap(Field("x", nid(), "uint16"), j), ap(Field("y", nid(), "E%d" % j), (j + k) % 4)], [inner], []), (j + k) % 4))
+        data = [ap(Data("d%d" % j, nid(), "varDataEncoding"), (j + k) % 4) for j in range(4)]
+        msgs.append(ap(Message("M%d" % k, 10 + k, fields, groups, data), k))
+    from . import refmodel
+    s = Schema(package, id=9, version=5, byte_order=byte_order, types=types, messages=msgs, semantic_version="5.0",
+               description="covering corpus: attribute matrix", name=package)
+    refmodel.fix_offsets(s)
+    refmodel.fit_ids_to_header(s)
+    return s
+
+
 def corpus():
     global _corpus_cache
     if _corpus_cache is None:
